@@ -495,7 +495,7 @@ pub fn exec(req: &str) -> String {
                 if let Pattern::MacShift { word, .. } = a.pattern {
                     // The opened key of that shuffle (same shard): XOR of the three shares sent H1->H2, H2->H3, H3->H1.
                     // The runs are deterministic (fixed PRSS seed), so this is the key of the tampered run as well. A
-                    // real helper reads it off the key share its left peer sends it (see DESIGN.md 10.4, finding F14).
+                    // real helper reads it off the key share its left peer sends it (see DESIGN.md 10.4, finding F15).
                     let Some(cut) = a.key.0.rfind('/') else { continue };
                     let kg = format!("{}/verify_shuffle/reveal_m_a_c_key", &a.key.0[..cut]);
                     let mut k = 0u32;
